@@ -33,6 +33,7 @@ import (
 	"sort"
 	"strings"
 	"sync"
+	"sync/atomic"
 	"time"
 
 	"github.com/gopcua/opcua"
@@ -61,7 +62,16 @@ func (k kase) String() string {
 	return fmt.Sprintf("%s %d %s %s %s %s %s %s %s %d", k.policy, k.mode, k.create, k.cert, k.sigKey, k.sigData, k.mangle, k.activate, k.nsRead, k.nsStrings)
 }
 
+// a policy written "R:<policy>" marks a reconnect case: the client is connected to a genuine server, the
+// connection is dropped, the session restore is refused and the behaviour applies to the CreateSession of the
+// monitor's recreateSession action
+func (k kase) reconnect() bool { return strings.HasPrefix(k.policy, "R:") }
+func (k kase) pol() string     { return strings.TrimPrefix(k.policy, "R:") }
+
 func (k kase) modelReq() string {
+	if k.reconnect() {
+		return fmt.Sprintf("recreate %d %s %s %s %s %s %s %s %d", k.mode, k.create, k.cert, k.sigKey, k.sigData, k.mangle, k.activate, k.nsRead, k.nsStrings)
+	}
 	return fmt.Sprintf("connect %d %s %s %s %s %s %s %s %d", k.mode, k.create, k.cert, k.sigKey, k.sigData, k.mangle, k.activate, k.nsRead, k.nsStrings)
 }
 
@@ -153,12 +163,13 @@ func one(k kase, keys string, seed uint64) (line, panicMsg string) {
 	srvK := load(2048, "a")
 	othK := load(2048, "b")
 	var cliK, badSize *h.KeyPair
-	if oldPolicy(k.policy) {
+	if oldPolicy(k.pol()) {
 		cliK, badSize = load(1024, "a"), load(4096, "b")
 	} else {
 		cliK, badSize = load(3072, "a"), load(1024, "b")
 	}
-	uri := ua.FormatSecurityPolicyURI(k.policy)
+	uri := ua.FormatSecurityPolicyURI(k.pol())
+	var phase, actN, createN atomic.Int32
 	mode := ua.MessageSecurityMode(k.mode)
 	rnd := h.NewRand(seed)
 
@@ -178,6 +189,12 @@ func one(k kase, keys string, seed uint64) (line, panicMsg string) {
 	script := func(s *sscript.Server, sc *uasc.SecureChannel, r ua.Request) ua.Response {
 		switch req := r.(type) {
 		case *ua.CreateSessionRequest:
+			if k.reconnect() {
+				if phase.Load() == 0 {
+					return nil // the first connection is to a genuine server
+				}
+				createN.Add(1)
+			}
 			var cert []byte
 			switch k.cert {
 			case "own":
@@ -249,6 +266,15 @@ func one(k kase, keys string, seed uint64) (line, panicMsg string) {
 				}
 			}, &ua.ActivateSessionResponse{ResponseHeader: sscript.Header(r, ua.StatusOK)})
 		case *ua.ActivateSessionRequest:
+			if k.reconnect() {
+				if phase.Load() == 0 {
+					return nil
+				}
+				if actN.Add(1) == 1 {
+					// the session restore on the new channel is refused: the client must recreate the session
+					return sscript.Fault(r, ua.StatusBadSessionIDInvalid)
+				}
+			}
 			return respOf(k.activate, r, func(hdr *ua.ResponseHeader) ua.Response {
 				return &ua.ActivateSessionResponse{ResponseHeader: hdr, ServerNonce: rnd.Bytes(32)}
 			}, &ua.ReadResponse{ResponseHeader: sscript.Header(r, ua.StatusOK)})
@@ -276,9 +302,10 @@ func one(k kase, keys string, seed uint64) (line, panicMsg string) {
 	var mu sync.Mutex
 	var states []string
 	opts := []opcua.Option{
-		opcua.SecurityPolicy(k.policy),
+		opcua.SecurityPolicy(k.pol()),
 		opcua.SecurityMode(mode),
-		opcua.AutoReconnect(false),
+		opcua.AutoReconnect(k.reconnect()),
+		opcua.ReconnectInterval(20 * time.Millisecond),
 		opcua.RequestTimeout(30 * time.Second),
 		opcua.DialTimeout(30 * time.Second),
 		opcua.StateChangedFunc(func(s opcua.ConnState) {
@@ -346,6 +373,44 @@ func one(k kase, keys string, seed uint64) (line, panicMsg string) {
 	}
 	if c.State() != opcua.Connected {
 		return report("ok-but-state-" + c.State().String()), ""
+	}
+	if k.reconnect() {
+		// phase 1: drop the connection; the monitor reconnects, the restore is refused, recreateSession runs
+		mu.Lock()
+		n0 := len(states)
+		mu.Unlock()
+		phase.Store(1)
+		srv.DropAll()
+		outcome := "retry"
+		deadline := time.Now().Add(20 * time.Second)
+		for time.Now().Before(deadline) {
+			mu.Lock()
+			again := false
+			for _, s := range states[n0:] {
+				if s == "Connected" {
+					again = true
+				}
+			}
+			mu.Unlock()
+			if again {
+				outcome = "session"
+				break
+			}
+			if createN.Load() >= 3 { // the action was retried twice more without a session: it does not get through
+				break
+			}
+			time.Sleep(5 * time.Millisecond)
+		}
+		if outcome == "retry" && createN.Load() == 0 {
+			return "dialfail", "the reconnect never reached CreateSession"
+		}
+		act := 0
+		if actN.Load() > 1 { // more than the refused restore
+			act = 1
+		}
+		line = fmt.Sprintf("%s %d", outcome, act)
+		go c.Close(context.Background())
+		return line, ""
 	}
 	line = report("ok")
 	c.Close(ctx)
@@ -560,6 +625,40 @@ func main() {
 		}
 	}
 
+	// reconnect cases: the monitor's recreateSession against every signature defect (two configurations)
+	if o.Replay == "" {
+		for _, c := range []cfg{{"R:Basic256Sha256", 2}, {"R:Aes256_Sha256_RsaPss", 3}, {"R:Basic128Rsa15", 3}} {
+			if !o.Thorough() && c.policy == "R:Basic128Rsa15" {
+				continue
+			}
+			g := genuine(c)
+			add(g)
+			for _, x := range mangles[1:] {
+				k := g
+				k.mangle = x
+				add(k)
+			}
+			k := g
+			k.sigKey = "other"
+			add(k)
+			k = g
+			k.sigData = "wrongNonce"
+			add(k)
+			k = g
+			k.cert = "unparsable"
+			add(k)
+			k = g
+			k.cert = "nonRsa"
+			add(k)
+			k = g
+			k.create = "fault"
+			add(k)
+			k = g
+			k.activate = "fault"
+			add(k)
+		}
+	}
+
 	// run the cases in 8 child processes (round-robin); results are consumed in case order
 	outs := make([]outcome, len(cases))
 	const workers = 8
@@ -618,6 +717,21 @@ func main() {
 		}
 		r.Sample(fmt.Sprintf("%s -> %s", c, out.line))
 		r.Compare(d, k.modelReq(), out.line)
+		if k.reconnect() {
+			// ---- oracle for the reconnect path: no session, no activation, no panic without a valid signature
+			r.Hit("reconnect")
+			switch {
+			case res == "panic":
+				r.Fail(c, "", "the client panicked while re-creating the session: "+firstLine(out.stderr))
+			case !k.sigValid() && res == "session":
+				r.Fail(c, "", "reconnect: the client reports Connected again although the server signature does not verify")
+			case !k.sigValid() && len(f) > 1 && f[1] == "1":
+				r.Fail(c, "", "reconnect: ActivateSessionRequest sent although the server signature does not verify")
+			case k.sigValid() && k.create == "ok" && k.activate == "ok" && res != "session":
+				r.Fail(c, "", "reconnect: a genuine server did not get its session back: "+out.line)
+			}
+			continue
+		}
 
 		// ---- the property's own oracle, on the implementation alone
 		signed := k.mode != 1
